@@ -197,7 +197,7 @@ Section WithOracle.
             match n with
             | Seq es =>
                 match es with
-                | [] => Panic      (* elems[len(elems)-1] with len 0 *)
+                | [] => Ok (n, None)   (* ElementIndexer: Index < 0 on an empty list returns nil, nil (fix 5cf7cc6; was elems[-1]: Panic) *)
                 | _ =>
                     let i := List.length es - 1 in
                     match nth_error es i with
@@ -207,7 +207,7 @@ Section WithOracle.
                     | None => Panic
                     end
                 end
-            | _ => if is_null n then Panic else Err
+            | _ => if is_null n then Ok (n, None) else Err   (* a null node has no elements: same branch as the empty list *)
             end
         | PSel nm v =>
             match n with
